@@ -45,15 +45,10 @@ Check C16_roundtrip_row :
   forallb (fun l => val_ok (rl_ty l) (rl_val l)) ls = true ->
   gen_ser_row_by_name d cols = Ok cells -> gen_typeck_row_by_name ls cols = Ok tt ->
   gen_deser_row_by_name ls cols cells = Ok (map rback_value ls).
-Check C16_excess_missing_ser_row_partial :
-  forall d cols,
-  nodupb (map rl_name (rd_leaves d)) = true -> has_empty_flatten d = false ->
+Check C16_excess_missing_ser_row :
+  forall d cols, rdesc_wf d = true ->
   outcome_of (gen_ser_row_by_name d cols) = doc_ser_row_by_name d cols /\
   gen_ser_row_by_name d cols <> Err EPanic.
-Check C16_excess_missing_ser_row_refuted :
-  exists d cols,
-  nodupb (map rl_name (rd_leaves d)) = true /\ known_empty_flatten d cols = true /\
-  gen_ser_row_by_name d cols = Ok [] /\ doc_ser_row_by_name d cols = Reject.
 Check C16_excess_missing_typeck_row :
   forall ls cols,
   NoDup (map rl_name (filter (fun f => negb (rl_skip f)) ls)) ->
@@ -129,8 +124,7 @@ Print Assumptions C16_excess_missing_typeck_value.
 Print Assumptions C16_excess_missing_deser_value.
 Print Assumptions C16_by_name_ser_row.
 Print Assumptions C16_roundtrip_row.
-Print Assumptions C16_excess_missing_ser_row_partial.
-Print Assumptions C16_excess_missing_ser_row_refuted.
+Print Assumptions C16_excess_missing_ser_row.
 Print Assumptions C16_excess_missing_typeck_row.
 Print Assumptions C16_excess_missing_deser_row.
 Print Assumptions C16_ordered_typeck_value.
